@@ -226,3 +226,26 @@ def malform(rng, data):
         i = rng.randint(lo, len(b) - 1)
         b[i] = rng.choice([0, 1, 2, 8, 9, 0x7F, 0x80, 0xFF, b[i] ^ (1 << rng.randint(0, 7))])
     return bytes(b)
+
+
+def gen_pair(rng, nitems=None, nsteps=None):
+    """one design as a GHW file and as a VCD file (C12). Arrays of leaves are not expressible in VCD with the same tree
+    (a VCD variable cannot be called `[1]`), so arrays only hold records here."""
+    from gen import vcd_writer
+    g = Gen(rng, alias_prob=0.1)
+    orig = g.rand_type
+
+    def rand_type(depth=0):
+        t = orig(depth)
+        while t[0] == "A" and t[4][0] != "R":
+            t = orig(depth)
+        return t
+    g.rand_type = rand_type
+    items = g.rand_items(nitems if nitems is not None else rng.choice([1, 3, 6, 10]))
+    snap, steps = g.rand_wave(nsteps if nsteps is not None else rng.choice([0, 2, 6, 15]))
+    w = ghw_writer.Writer(rng, big_endian=rng.random() < 0.3, version=rng.choice([0, 1]))
+    ghw = w.serialise(items, g.natoms, g.kinds, snap, steps)
+    times = [snap[0]] + [t for t, _ in steps]
+    unit = "ps" if all(t % 1000 == 0 for t in times) and rng.random() < 0.6 else "fs"
+    vcd = vcd_writer.render(rng, items, g.natoms, snap, steps, unit=unit)
+    return ghw_writer.design_tokens(items, g.natoms, snap, steps), ghw, vcd
